@@ -2,6 +2,7 @@
 C17 — deserializing any proto terminates with an error or a consistent IR (model `IrVerif.Scope`).
 -/
 import IrVerif.Lemmas.ScopeTree
+import IrVerif.Lemmas.ScopeIdem
 namespace IrVerif.Scope
 
 /-- **C17_total**: `deserialize` is a total function on every `GraphP`, with no well-formedness
@@ -218,6 +219,21 @@ theorem C17_consistent (p : GraphP) (w : World) (h : deserialize p = .ok w) : Co
     simp only [List.nil_append] at this
     exact this.consistent (deserGraph_tree p {} [] st g (fun _ _ => rfl) (fun _ ht => by simp at ht) hg)
 
+/-- **C17_idempotent_partial**: if deserialization returns an IR `w` that is `Serializable` (the names
+    of the proto were SSA per scope chain, every reference resolved to a definition of an enclosing
+    scope, graph outputs were produced in their graph, no empty / duplicate names needed for
+    references; decidable: `serializableB`), then serializing `w` gives a proto `q` that deserializes
+    and serializes to itself.
+    NOT covered by this theorem (covered by the correspondence check, which runs the model's
+    `serialize ∘ deserialize` twice on every generated proto, and by the oracle on the real code):
+    protos whose IR is not `Serializable` — duplicate or dangling names, placeholders, graph outputs
+    without producer, an initializer shadowing another.  On all generated protos of that kind the
+    model and the real code are fix-points as well. -/
+theorem C17_idempotent_partial (p : GraphP) (w : World) (_hd : deserialize p = .ok w) (hs : Serializable w) :
+    ∃ (w1 : World) (q : GraphP) (D : World) (w2 : World),
+      serialize w = .ok (w1, q) ∧ deserialize q = .ok D ∧ serialize D = .ok (w2, q) :=
+  serialize_roundtrip_fixpoint w hs
+
 /-! ### non-vacuity -/
 
 /-- input `x`, initializer `w` (with an empty value_info entry), node `A(x, w, "", ghost) -> y, ""`
@@ -239,5 +255,32 @@ example : isOkB (deserialize exampleProto) = true := by decide +kernel
 
 /-- and deserialization does reject: an output name declared twice in one scope -/
 example : isOkB (deserialize (.mk [] [] [] [.mk [] ["a", "a"] []] [])) = false := by decide +kernel
+
+/-- SSA variant of `exampleProto` (no dangling names): nested scope, unsorted order, an omitted input,
+    a trailing empty output, an initializer with an empty value_info entry -/
+def exampleSSA : GraphP :=
+  .mk [⟨"x", { ty := some "f32", sh := some "[2]" }⟩] [⟨"w", "d0", "f32", "[2]"⟩]
+    [⟨"y", { ty := some "f32" }⟩, ⟨"w", {}⟩]
+    [ .mk ["x", "w", ""] ["y", ""]
+        [ .mk [] [] [] [ .mk ["y", "t"] ["r"] [] ] [⟨"r", {}⟩] ],
+      .mk [] ["t"] [] ]
+    [⟨"y", { ty := some "f32" }⟩]
+
+def deserSerializableB (p : GraphP) : Bool :=
+  match deserialize p with
+  | .ok w => serializableB w
+  | .error _ => false
+
+/-- the hypotheses of `C17_idempotent_partial` are satisfiable -/
+example : ∃ w, deserialize exampleSSA = .ok w ∧ Serializable w := by
+  have h : deserSerializableB exampleSSA = true := by decide +kernel
+  unfold deserSerializableB at h
+  split at h
+  · next w hw => exact ⟨w, hw, serializableB_sound _ h⟩
+  · exact absurd h (by simp)
+
+/-- and they exclude something: the deserialization of `exampleProto` (dangling `ghost`, `q`) is not
+    `serializableB` -/
+example : deserSerializableB exampleProto = false := by decide +kernel
 
 end IrVerif.Scope
